@@ -15,9 +15,9 @@ CLAIMED = {
   technique="Lean 4 proof (refinement to by-name spec) + translator from lambdify seam + differential correspondence",
   design="5 C01"),
  "C10": dict(
-  text="Lean 4 theorems (FormakVerif.C10: equal_no_step, direction, bounded, sum_close, segment_ok, py_eq_cpp) prove for every current time, target "
+  text="Lean 4 theorems (FormakVerif.C10: equal_no_step, direction, bounded, sum_close, segment_ok, py_eq_cpp, plan_ok, history_steps_ok) prove for every current time, target "
        "time and max step > 0, over exact rational arithmetic, that the step plan both runtimes implement takes no step when the times coincide, "
-       "that every step points in the direction of travel, none exceeds the maximum and the steps sum to the difference within 1e-9. Tie: the same "
+       "that every step points in the direction of travel, none exceeds the maximum and the steps sum to the difference within 1e-9; history_steps_ok lifts boundedness and non-zero length to every prediction call of ANY history of ticks (induction over the history). Tie: the same "
        "generic `plan` definition instantiated with native binary64 is compared bit-for-bit with runtime.py (recording stand-in filter) and with "
        "ManagedFilter.h compiled from the working tree with a recording Impl (4 control/calibration combinations, 8 max_dt values from 1 ms to 250 s); the "
        "max_dt constant of a generated header is probed too.",
